@@ -63,6 +63,14 @@ class Gen:
             if t == "usize":
                 arrs = [(x, ty) for x, ty in env if isinstance(ty, tuple) and ty[0] == "arr"]
                 if arrs: return ("len", ("var", r.choice(arrs)[0]))
+        if self.level >= 3 and r.random() < 0.10:
+            ks = [n for n, ty, _ in self.consts if ty == t]
+            if ks: return ("var", r.choice(ks))
+            sts = [(x, ty) for x, ty in env if isinstance(ty, tuple) and ty[0] == "struct"]
+            if sts:
+                x, ty = r.choice(sts)
+                ms = [m for m, mt in self.struct_members(ty[1]) if mt == t]
+                if ms: return ("mem", ("var", x), r.choice(ms))
         if depth <= 0 or r.random() < 0.25:
             if vars_t and r.random() < 0.65: return ("var", r.choice(vars_t))
             return self.lit(t)
@@ -238,6 +246,8 @@ class Gen:
         r = self.rng
         out = []
         k = r.random()
+        if self.level >= 3 and self.structs and r.random() < 0.4:
+            return self.struct_stmts(env)
         arrays = [(x, ty) for x, ty in env if isinstance(ty, tuple) and ty[0] == "arr" and isinstance(ty[2], str)]
         prims = [(x, ty) for x, ty in env if isinstance(ty, str) and x.startswith("v")]
         lib_t = sorted({t for _, _, t in getattr(self, "lib", [])})
@@ -291,6 +301,75 @@ class Gen:
                     out.append(("print", [(("var", v), t2), ("str", b" "), (("var", w), t2), ("str", b"\n")]))
         return out
 
+    # ---- structs, words, constants (level >= 3) ----------------------------------------
+    def struct_members(self, name):
+        for n, kind, ms in self.structs:
+            if n == name: return ms
+        return []
+
+    def make_structs(self):
+        r = self.rng
+        WORDS = {"word16": [["u8", "i8"], ["bool", "u8"], ["i16"]], "word32": [["i16", "u16"], ["u8", "u8", "i16"], ["i32"], ["char8", "bool", "u16"]],
+                 "word64": [["i32", "u32"], ["u16", "i16", "i32"], ["u64"]], "word128": [["i64", "u64"], ["i32", "i32", "u64"]]}
+        for _ in range(r.randint(1, 2)):
+            name = self.fresh("S")
+            if r.random() < 0.35:
+                kind = r.choice(sorted(WORDS)); types = r.choice(WORDS[kind])
+            else:
+                kind = "struct"; types = [r.choice(PRIMS) for _ in range(r.randint(1, 4))]
+            ms = [("m%d" % i, t) for i, t in enumerate(types)]
+            self.structs.append((name, kind, ms))
+            m, t = r.choice(ms)
+            # fn get(s: S) -> T (view of a structure), fn set(s: &S, v: T) (pointer to a structure)
+            self.funcs.append(["get" + name, [("s", ("struct", name))], t, [], ("mem", ("var", "s"), m), True])
+            rhs = ("var", "v") if t in ("bool", "char8") else ("bin", "+", ("var", "v"), ("mem", ("var", "s"), m))
+            self.funcs.append(["set" + name, [("s", ("ptr", ("struct", name))), ("v", t)], None,
+                               [("assign", ("mem", ("var", "s"), m), rhs)], None, True])
+            self.slib = getattr(self, "slib", {}); self.slib[name] = (m, t)
+
+    def make_consts(self):
+        r = self.rng
+        for _ in range(r.randint(1, 3)):
+            t = r.choice(INTS + ["bool", "char8"])
+            name = self.fresh("K")
+            prev = [n for n, ty, _ in self.consts if ty == t]
+            if prev and t in ARITH and r.random() < 0.6:
+                e = ("bin", r.choice(["+", "-", "*"]), ("var", r.choice(prev)), self.lit(t))
+            else:
+                e = self.lit(t)
+            self.consts.append((name, t, e))
+
+    def struct_stmts(self, env):
+        r = self.rng
+        out = []
+        senv = [e for e in env if isinstance(e[1], str)]
+        have = [(x, ty) for x, ty in env if isinstance(ty, tuple) and ty[0] == "struct"]
+        k = r.random()
+        if k < 0.35 or not have:
+            name, kind, ms = r.choice(self.structs)
+            x = self.fresh("s")
+            out.append(("decl", x, ("struct", name), ("slit", name, [(m, self.expr(t, senv, 1)) for m, t in ms])))
+            env.append((x, ("struct", name)))
+            m, t = r.choice(ms)
+            out.append(("print", [(("mem", ("var", x), m), t), ("str", b"\n")]))
+            return out
+        x, (_, name) = r.choice(have)
+        ms = self.struct_members(name)
+        m, t = r.choice(ms)
+        if k < 0.55:
+            out.append(("assign", ("mem", ("var", x), m), self.expr(t, senv, 2)))
+            out.append(("print", [(("mem", ("var", x), m), t), ("str", b"\n")]))
+        elif k < 0.75:
+            gm, gt = self.slib[name]
+            out.append(("print", [(("call", "get" + name, [("viewarg", ("var", x))]), gt), ("str", b"\n")]))
+        else:
+            gm, gt = self.slib[name]
+            out.append(("callstmt", "set" + name, [("addr", ("var", x)), self.expr(gt, senv, 1)]))
+            items = []
+            for mm, mt in ms: items += [(("mem", ("var", x), mm), mt), ("str", b" ")]
+            out.append(("print", items + [("str", b"\n")]))
+        return out
+
     # ---- functions ---------------------------------------------------------------
     def function(self, name, is_main=False):
         r = self.rng
@@ -313,6 +392,8 @@ class Gen:
         self.funcs.append([name, params, ret, body, result, False])
 
     def program(self):
+        if self.level >= 3:
+            self.make_consts(); self.make_structs()
         if self.level >= 2: self.library()
         nf = self.rng.randint(0, self.max_funcs)
         for i in range(nf):
@@ -541,21 +622,25 @@ def esc_str(b):
     return out
 
 
-def source(prog, rng, plain=False):
+def source(prog, rng, plain=False, shuffle=None):
+    """shuffle: a random.Random used to permute ALL top-level declarations
+    (structures, constants and functions interleaved); None keeps the canonical order."""
     lay = Layout(rng, plain)
-    out = ""
+    decls = []
     for n, kind, ms in prog["structs"]:
-        out += "%s %s\n{\n%s}\n\n" % (kind, n, "".join("\t%s: %s,\n" % (m, src_ty(t)) for m, t in ms))
+        decls.append("%s %s\n{\n%s}\n\n" % (kind, n, "".join("\t%s: %s,\n" % (m, src_ty(t)) for m, t in ms)))
     for n, t, e in prog["consts"]:
-        out += "const %s: %s = %s;\n" % (n, src_ty(t), src_expr(e, lay))
+        decls.append("const %s: %s = %s;\n" % (n, src_ty(t), src_expr(e, lay)))
     for name, params, ret, body, result, _ in prog["funcs"]:
-        out += "fn %s(%s)%s\n{\n" % (name, ", ".join("%s: %s" % (x, src_ty(t)) for x, t in params),
+        out = "fn %s(%s)%s\n{\n" % (name, ", ".join("%s: %s" % (x, src_ty(t)) for x, t in params),
                                        " -> " + src_ty(ret) if ret else "")
         for s in body: out += src_stmt(s, lay, 1)
         if result is not None:
             out += "\treturn: %s\n" % src_expr(result, lay, result[0] != "lit")
         out += "}\n\n"
-    return out
+        decls.append(out)
+    if shuffle is not None: shuffle.shuffle(decls)
+    return "".join(decls)
 
 
 # ---------------------------------------------------------------------------
